@@ -1,7 +1,138 @@
-(* Properties/C05.v — C05: WAL reopen after a crash returns exactly a durable prefix. *)
+(* Properties/C05.v — C05: WAL reopen after a crash returns exactly a durable prefix.
+   Only property theorems (closed by [exact]) and non-vacuity examples. The model is coq/Wal/Model.v
+   (byte exact; tied to /repo's wal package by the correspondence check on every run). *)
 From ZV Require Import Common.Bytes Wal.Consts Wal.Crc Wal.Proto Wal.Model Wal.Proofs.
 Open Scope N_scope.
 
-Theorem C05_btake_is_firstn : forall bs n, btake n bs = firstn (N.to_nat n) bs.
-Proof. exact btake_firstn. Qed.
-Print Assumptions C05_btake_is_firstn.
+(* ---------- CRC-32C ---------- *)
+(* the table-driven CRC the extracted model runs is the bit-at-a-time Castagnoli CRC *)
+Theorem C05_crc_table_is_spec : forall crc bs, crc_update crc bs = crc_update_spec crc bs.
+Proof. exact crc_update_eq_spec. Qed.
+Print Assumptions C05_crc_table_is_spec.
+
+(* chaining: Write(a); Write(b) = Write(a ++ b) *)
+Theorem C05_crc_chain : forall c a b, crc_update c (a ++ b) = crc_update (crc_update c a) b.
+Proof. exact crc_update_app. Qed.
+Print Assumptions C05_crc_chain.
+
+(* (e) two payloads that differ in exactly one byte — in particular in one bit — never have the same CRC *)
+Theorem C05_crc_single_byte : forall p q b b' c,
+  c < 2 ^ 32 -> bytes_lt p -> bytes_lt q -> b < 256 -> b' < 256 -> b <> b' ->
+  crc_update c (p ++ b :: q) <> crc_update c (p ++ b' :: q).
+Proof. exact crc_single_byte. Qed.
+Print Assumptions C05_crc_single_byte.
+
+Theorem C05_crc_single_bit : forall p q b k c,
+  c < 2 ^ 32 -> bytes_lt p -> bytes_lt q -> b < 256 -> k < 8 ->
+  crc_update c (p ++ N.lxor b (N.shiftl 1 k) :: q) <> crc_update c (p ++ b :: q).
+Proof. exact crc_single_bit. Qed.
+Print Assumptions C05_crc_single_bit.
+
+(* ---------- protobuf layer ---------- *)
+Theorem C05_varint_roundtrip : forall v rest, v < 2 ^ 64 -> varint_dec (varint_enc v ++ rest) = POk (v, rest).
+Proof. exact varint_roundtrip. Qed.
+Print Assumptions C05_varint_roundtrip.
+
+Theorem C05_record_roundtrip : forall r,
+  r_type r < 2 ^ 64 -> r_crc r < 2 ^ 32 -> opt_len (r_data r) < 2 ^ 61 ->
+  record_unmarshal (record_marshal r) = POk r.
+Proof. exact record_roundtrip. Qed.
+Print Assumptions C05_record_roundtrip.
+
+Theorem C05_entry_roundtrip : forall e, entry_ok e -> entry_unmarshal (entry_marshal e) = POk e.
+Proof. exact entry_roundtrip. Qed.
+Print Assumptions C05_entry_roundtrip.
+
+Theorem C05_hardstate_roundtrip : forall s,
+  hs_term s < 2 ^ 64 -> hs_vote s < 2 ^ 64 -> hs_commit s < 2 ^ 64 -> hs_unmarshal (hs_marshal s) = POk s.
+Proof. exact hs_roundtrip. Qed.
+Print Assumptions C05_hardstate_roundtrip.
+
+Theorem C05_snapshot_roundtrip : forall s,
+  sn_index s < 2 ^ 64 -> sn_term s < 2 ^ 64 -> snap_unmarshal (snap_marshal s) = POk s.
+Proof. exact snap_roundtrip. Qed.
+Print Assumptions C05_snapshot_roundtrip.
+
+(* ---------- frames ---------- *)
+Theorem C05_frame_size_roundtrip : forall n, n < 2 ^ 56 ->
+  frame_rec_bytes (frame_len_field n) = n /\ frame_pad_bytes (frame_len_field n) = frame_pad n /\
+  (n + frame_pad n) mod 8 = 0.
+Proof. intros n H. split; [now apply frame_rec_bytes_field|split; [now apply frame_pad_bytes_field|apply frame_pad_spec]]. Qed.
+Print Assumptions C05_frame_size_roundtrip.
+
+(* decodeRecord on a frame the encoder wrote returns the record, advances lastValidOff by the frame
+   and chains the crc — whatever follows the frame and whatever other segments there are *)
+Theorem C05_frame_decodes : forall fuel r rest others off crc,
+  rec_ok r -> crc_consistent crc r ->
+  decode_record (S fuel)
+    {| d_brs := (frame (record_marshal r) ++ rest) :: others; d_off := off; d_crc := crc |} =
+  DRec r {| d_brs := rest :: others; d_off := off + blen (frame (record_marshal r)); d_crc := crc_after crc r |}.
+Proof. exact decode_record_frame. Qed.
+Print Assumptions C05_frame_decodes.
+
+(* ---------- (a) round trip of a segment file: stream + preallocated zeros ---------- *)
+Theorem C05_decode_encode_roundtrip : forall recs z,
+  Forall enc_ok recs -> (z = 0 \/ 8 <= z) ->
+  decode_all [fst (encode_all 0 recs) ++ zeros z] = (stored 0 recs, None, blen (fst (encode_all 0 recs))).
+Proof. exact decode_all_roundtrip. Qed.
+Print Assumptions C05_decode_encode_roundtrip.
+
+(* ---------- synced ⊑ p: what was encoded before a point survives ANY damage behind it ---------- *)
+Theorem C05_synced_prefix_survives : forall recs junk,
+  Forall enc_ok recs ->
+  exists rs v off, decode_all [fst (encode_all 0 recs) ++ junk] = (stored 0 recs ++ rs, v, off).
+Proof. exact synced_prefix_survives. Qed.
+Print Assumptions C05_synced_prefix_survives.
+
+(* ---------- (b) the prefix theorem, for EVERY byte offset c ----------
+   file = written stream + preallocated zeros; the image keeps the first c bytes, the rest is zero.
+   The decoder returns exactly a prefix of the written records (never anything else), which contains
+   every record that lies wholly before the cut, then EOF or an error; lastValidOff is the end of that prefix.
+   Unconditional when the cut is at a frame boundary, inside a length field, or past the stream;
+   for a cut inside a frame body under the named hypothesis [no_crc_collision_cut] (the zero-filled
+   frame is the frame itself or is rejected), which the check evaluates on every generated image. *)
+Theorem C05_truncated_image_is_prefix : forall recs z c,
+  Forall enc_ok recs -> (z = 0 \/ 8 <= z) ->
+  let stream := fst (encode_all 0 recs) in
+  let file := stream ++ zeros z in
+  c <= blen file ->
+  (forall recs1 x recs2 j, recs = recs1 ++ x :: recs2 -> c = blen (fst (encode_all 0 recs1)) + j ->
+     8 <= j < blen (frame_of (snd (encode_all 0 recs1)) x) ->
+     no_crc_collision_cut (snd (encode_all 0 recs1)) x j) ->
+  exists recs1 recs2 v,
+    recs = recs1 ++ recs2 /\
+    decode_all [img_trunc c file] = (stored 0 recs1, v, blen (fst (encode_all 0 recs1))) /\
+    (recs2 = [] \/ c < blen (fst (encode_all 0 (recs1 ++ firstn 1 recs2)))) /\
+    verdict_ok v.
+Proof. exact trunc_image_decodes. Qed.
+Print Assumptions C05_truncated_image_is_prefix.
+
+(* ---------- (c) ReadAll's fold: last write per index wins, what follows is truncated ---------- *)
+Theorem C05_readall_entries_visible : forall start es ents,
+  (forall e, In e es -> start < e_index e) ->
+  place_all start [] es = Some ents ->
+  ents = visible es /\ contiguous start ents.
+Proof. intros start es ents H1 H2. exact (place_all_visible start es [] [] ents H1 I eq_refl H2). Qed.
+Print Assumptions C05_readall_entries_visible.
+
+Theorem C05_visible_characterised : forall es e,
+  In e (visible es) <-> exists a b, es = a ++ e :: b /\ forall y, In y b -> e_index e < e_index y.
+Proof. exact visible_spec. Qed.
+Print Assumptions C05_visible_characterised.
+
+(* ---------- non-vacuity ---------- *)
+(* CRC-32C("123456789") = 0xE3069283, the standard check value *)
+Example C05_ex_crc_check : crc32c [49;50;51;52;53;54;55;56;57] = 3808858755.
+Proof. vm_compute. reflexivity. Qed.
+
+(* a concrete history satisfies the hypotheses of the prefix theorem's stream and decodes back *)
+Example C05_ex_stream :
+  let recs := [(c_crcType, None); (c_metadataType, Some [1;2;3]); (c_entryType, Some [8;0;16;1;24;1;40;0;48;0;56;0])] in
+  Forall enc_ok recs /\
+  decode_all [fst (encode_all 0 recs) ++ zeros 16] = (stored 0 recs, None, 72) /\
+  (* cut in the middle of the last frame's length field: exactly the first two records, then UnexpectedEOF *)
+  decode_all [img_trunc 43 (fst (encode_all 0 recs) ++ zeros 16)] = (firstn 2 (stored 0 recs), Some EUeof, 40).
+Proof.
+  cbv zeta. split; [|split; vm_compute; reflexivity].
+  repeat constructor; cbn; try lia; try discriminate; repeat constructor; lia.
+Qed.
